@@ -358,5 +358,132 @@ theorem C05_deep_fixpoint (j : J) (h1 : wfItem envJson (readTop envJson j) = tru
   rw [e1, C01_deep _ h2]
   exact normX_idem true _
 
-end APModel.Deep
+/-! ### documents that did not come from this library: presentations
 
+An independent writer is free in how it presents a value.  `present bare asMap` is the library's own
+reader (`envJson`'s read tables, untouched) facing a writer that differs from the library's in the two
+dimensions the format leaves open:
+
+  * a list-valued property with one member is written as that member alone (`bare sn n = true`) or as an
+    array of one (`false`) — chosen per struct and property by an ARBITRARY function;
+  * a single language-tagged text is written as a one-entry language map under `<term>Map`
+    (`asMap = true`, the tag survives) or as a plain string (`false`, the library's own choice).
+
+(Member order and unknown members are not part of this theorem: they are covered by the `docDecode`
+correspondence only.) -/
+def presentRow (bare : Bool) (kind : String) (w : WRow) : WRow :=
+  if kind == "items" then
+    { w with helper := if bare then "JSONWriteItemProp" else "JSONWriteItemCollectionProp" }
+  else w
+
+def present (bare : String → String → Bool) (asMap : Bool) : Env :=
+  { envJson with
+    wrow := fun sn n => (envJson.wrow sn n).map (presentRow (bare sn n) (envJson.fieldKind sn n))
+    loneTagAsMap := asMap }
+
+theorem deepPair_items_swap (hw hr : String) (b : Bool) (h : deepPair "items" hw hr = true) :
+    deepPair "items" (if b then "JSONWriteItemProp" else "JSONWriteItemCollectionProp") hr = true := by
+  have e1 : isStrKind "items" = false := by decide
+  simp only [deepPair, e1, Bool.false_eq_true, if_false] at h ⊢
+  have e2 : ("items" == "item") = false := by decide
+  simp only [e2, Bool.false_eq_true, if_false, beq_self_eq_true, if_true, Bool.and_eq_true] at h ⊢
+  refine ⟨?_, h.2⟩
+  cases b <;> simp
+
+/-- the tables fit for every presentation: a field that is coherent for the library's writer is
+coherent for any `present bare asMap` -/
+theorem coherent_present (bare : String → String → Bool) (asMap : Bool) (sn n : String)
+    (h : coherentField envJson sn n = true) : coherentField (present bare asMap) sn n = true := by
+  unfold coherentField at h ⊢
+  show (match (envJson.wrow sn n).map (presentRow (bare sn n) (envJson.fieldKind sn n)) with
+    | none => false
+    | some w =>
+      let kind := envJson.fieldKind sn n
+      guardFits w.guard kind &&
+      (match envJson.rrow sn (nm w.term) with
+       | some r => r.field == n && deepPair kind w.helper r.helper
+       | none => false) &&
+      (kind != "nlv" ||
+        ((envJson.rrow sn (nm (w.term ++ "Map"))).isNone &&
+         (match envJson.rrowMap sn (nm (w.term ++ "Map")) with
+          | some r => r.field == n
+          | none => false)))) = true
+  cases hw : envJson.wrow sn n with
+  | none => simp [hw] at h
+  | some w =>
+    simp only [hw, Option.map_some] at h ⊢
+    by_cases hk : (envJson.fieldKind sn n == "items") = true
+    · have hk' : envJson.fieldKind sn n = "items" := by simpa using hk
+      simp only [presentRow, hk, if_true]
+      simp only [hk'] at h ⊢
+      simp only [Bool.and_eq_true] at h ⊢
+      refine ⟨⟨h.1.1, ?_⟩, h.2⟩
+      cases hr : envJson.rrow sn (nm w.term) with
+      | none => simp [hr] at h
+      | some r =>
+        have h2 := h.1.2
+        simp only [hr, Bool.and_eq_true] at h2 ⊢
+        exact ⟨h2.1, deepPair_items_swap _ _ _ h2.2⟩
+    · simp only [presentRow, hk, Bool.false_eq_true, if_false]
+      exact h
+
+theorem C05_tables_present (bare : String → String → Bool) (asMap : Bool) :
+    jsonEntries.all (fun e => (schemaOf e.1).all (fun f => coherentField (present bare asMap) e.1 f.1)) = true := by
+  have h := C01_deep_tables
+  simp only [List.all_eq_true] at h ⊢
+  intro e he f hf
+  exact coherent_present bare asMap _ _ (h e he f hf)
+
+/-- C05, "decoding reads what the document says", over presentations: for EVERY choice of bare-vs-array
+per property, either presentation of single tagged texts, and EVERY value tree well formed for that
+presentation, the library's reader applied to the presented document yields the decode normal form:
+`normJ` when the tag was dropped by the writer, `normD` (tags kept) when it was presented as a map. -/
+theorem present_same_reader (bare : String → String → Bool) (asMap : Bool) :
+    SameReader (present bare asMap) envJson := ⟨rfl, rfl, rfl, rfl, rfl, rfl⟩
+
+/-- what the library's reader makes of the document an independent writer produced for `x` -/
+def readPresented (bare : String → String → Bool) (asMap : Bool) (x : Item) : Item :=
+  match writeItem (present bare asMap) x with
+  | none => .nil
+  | some j => readTop envJson j
+
+/-- C05, "decoding reads what the document says", over presentations: for EVERY choice of bare-vs-array
+per property, either presentation of single tagged texts, and EVERY value tree well formed for that
+presentation, the library's reader (`readTop envJson`) applied to the presented document yields the
+decode normal form: `normJ` when the writer dropped the tag, `normD` (tags kept) when it presented it
+as a map. -/
+theorem C05_presentations (bare : String → String → Bool) (asMap : Bool) (x : Item)
+    (h : wfItem (present bare asMap) x = true) :
+    readPresented bare asMap x = (if asMap then normD x else normJ x) := by
+  have e := deep_roundtrip (present bare asMap) x h
+  have e2 : enc (present bare asMap) = !asMap := rfl
+  rw [e2] at e
+  unfold roundTrip at e
+  unfold readPresented
+  cases hw : writeItem (present bare asMap) x with
+  | none => rw [hw] at e; cases asMap <;> simpa [normJ, normD] using e
+  | some j =>
+    rw [hw] at e
+    simp only at e ⊢
+    rw [← readTop_ext _ _ (present_same_reader bare asMap) j, e]
+    cases asMap <;> simp [normJ, normD]
+
+/-! non-vacuity: the sample Create of C01, with its single-member tag list presented bare and a lone
+French title presented as a language map, is well formed for that presentation; and the presented
+document really differs from the library's own -/
+def sampleDoc : Item := .node .object false
+  (.cons "ID" (.str (nm "https://example.com/n/1")) (.cons "Type" (.str (nm "Note"))
+  (.cons "Name" (.nlv [(nm "fr", nm "bonjour")])
+  (.cons "To" (.items (.cons (.iri (nm "https://example.com/a")) .nil)) .nil))))
+theorem sampleDoc_wf : wfItem (present (fun _ _ => true) true) sampleDoc = true := by decide +kernel
+example : readPresented (fun _ _ => true) true sampleDoc = normD sampleDoc := by
+  simpa using C05_presentations _ true _ sampleDoc_wf
+def hasMember (j : Option J) (name : String) : Bool :=
+  match j with
+  | some (.obj ms) => (JMembers.get? ms (nm name)).isSome
+  | _ => false
+example : hasMember (writeItem (present (fun _ _ => true) true) sampleDoc) "nameMap" = true
+    ∧ hasMember (writeItem envJson sampleDoc) "nameMap" = false
+    ∧ hasMember (writeItem envJson sampleDoc) "name" = true := by decide +kernel
+
+end APModel.Deep
